@@ -92,6 +92,7 @@ func genBridge(r *hlib.Rng, dc uint32, pos uint64, tag uint64) Ev {
 func genBridgeBlocks(r *hlib.Rng, nb int, start uint64) ([]BBlock, []common.Hash) {
 	var blocks []BBlock
 	var leaves []common.Hash
+	var all []Ev
 	num := start
 	dc := uint32(0)
 	tag := uint64(100)
@@ -103,6 +104,11 @@ func genBridgeBlocks(r *hlib.Rng, nb int, start uint64) ([]BBlock, []common.Hash
 			pos += uint64(r.Intn(3))
 			tag++
 			e := genBridge(r, dc, pos, tag)
+			if n := len(all); n >= 2 && r.Intn(4) == 0 { // a deposit equal to the one two counts earlier: equal leaves on positions of the same parity
+				e = all[n-2]
+				e.Pos, e.Tag, e.DC = pos, tag, dc
+			}
+			all = append(all, e)
 			b.Events = append(b.Events, e)
 			leaves = append(leaves, toBridge(num, e).Hash())
 			dc++
